@@ -42,6 +42,9 @@ type vconn struct {
 	timeouts   int  // consecutive Reads answered with a timeout
 	spun       bool // the dialer kept reading on an expired deadline
 	peerWrites int  // real-TLS peer: Write calls of the server so far
+	// stallWrites: the peer does not even drain what is sent (an unbuffered transport, a full
+	// send buffer): every Write blocks until the write deadline or Close ends it
+	stallWrites bool
 }
 
 func newVconn() *vconn {
@@ -155,6 +158,9 @@ func (c *vconn) Write(p []byte) (n int, err error) {
 	c.mu.Unlock()
 	c.pass(fmt.Sprintf("before:%d", k))
 	c.mu.Lock()
+	for c.stallWrites && !c.closed && !expired(c.wdl) {
+		c.cond.Wait()
+	}
 	switch {
 	case c.closed:
 		err = io.ErrClosedPipe
